@@ -451,6 +451,9 @@ def witnesses(rep, tier):
     rep.rule(rule, "compile_fail doc tests (with compiling twins): Alloc::metadata and AtomicSlice::non_atomic need `unsafe` (E0133); "
                    "metadata buffers must outlive the allocator (E0597)")
     run = os.path.join(WITNESS_DIR, "run.sh")
+    if os.environ.get("VERIF_NO_WITNESS") and os.environ.get("VERIF_REPO"):
+        rep.note("witness doc tests skipped (VERIF_NO_WITNESS, scratch copy only)")
+        return
     if not os.path.exists(run):
         rep.violation(rule, "witness-crate", "witness crate missing")
         return
